@@ -294,7 +294,8 @@ class Verifier:
                     st.ghost[gname + '.n'] = n - z3.If(pnd, 1, 0)
         # rely/guarantee: facts carried by OTHER process instances across their yields must survive this function / segment
         eng.foreign = []
-        for cf in (getattr(self.spec, 'carried', []) if c.invariants else []):
+        # (not for functions that run the event loop themselves: env.run executes the foreign processes' own segments)
+        for cf in (getattr(self.spec, 'carried', []) if (c.invariants is True and 'world' not in c.modifies) else []):
             fp = {k: eng.fresh_of_type(t, 'foreign_' + k) for k, t in cf.params.items()}
             sv0 = SV(eng, st, names)
             f0 = cf.formula(sv0, fp, names)
